@@ -35,6 +35,11 @@ pub trait IsoCheck: Sync {
 }
 
 pub const WATCHDOG: Duration = Duration::from_secs(6);
+/// largest single allocation a case may make (a 4 GiB dictionary fits, 2^63 does not)
+pub const REQUEST_CAP: usize = 5 << 30;
+/// progress value while a child is still building its case list
+const STARTING: u64 = u64::MAX - 7;
+const STARTUP_GRACE: Duration = Duration::from_secs(120);
 const CHILD_STACK: usize = 8 << 20;
 
 fn child_args(cli: &Cli) -> Option<(usize, usize, usize, String)> {
@@ -50,27 +55,47 @@ fn child_args(cli: &Cli) -> Option<(usize, usize, usize, String)> {
 fn set_limits() {
     unsafe {
         // address space: the request cap below is the real guard; this one stops runaway growth
-        let lim = libc::rlimit { rlim_cur: 6 << 30, rlim_max: 6 << 30 };
+        let lim = libc::rlimit { rlim_cur: 40 << 30, rlim_max: 40 << 30 };
         libc::setrlimit(libc::RLIMIT_AS, &lim);
         let core = libc::rlimit { rlim_cur: 0, rlim_max: 0 };
         libc::setrlimit(libc::RLIMIT_CORE, &core);
     }
 }
 
-static PROGRESS_FD: std::sync::atomic::AtomicI32 = std::sync::atomic::AtomicI32::new(-1);
+/// The progress record is a shared memory mapping of a small file: the child stores into it
+/// without system calls, the parent reads the file.
+static PROGRESS_PTR: std::sync::atomic::AtomicUsize = std::sync::atomic::AtomicUsize::new(0);
 
-/// Allocation-cap hook: record the size of the refused request in the progress file.
+fn map_progress(f: &std::fs::File) {
+    use std::os::fd::AsRawFd;
+    let _ = f.set_len(32);
+    let p = unsafe { libc::mmap(std::ptr::null_mut(), 32, libc::PROT_READ | libc::PROT_WRITE, libc::MAP_SHARED, f.as_raw_fd(), 0) };
+    if p != libc::MAP_FAILED {
+        PROGRESS_PTR.store(p as usize, std::sync::atomic::Ordering::SeqCst);
+    }
+}
+
+/// Allocation-cap hook: record the size of the refused request in the progress record.
 fn cap_hook(size: usize) {
-    let fd = PROGRESS_FD.load(std::sync::atomic::Ordering::Relaxed);
-    if fd >= 0 {
-        let b = (size as u64).to_le_bytes();
-        unsafe {
-            libc::pwrite(fd, b.as_ptr() as *const libc::c_void, 8, 24);
-        }
+    let p = PROGRESS_PTR.load(std::sync::atomic::Ordering::Relaxed);
+    if p != 0 {
+        unsafe { std::ptr::write_volatile((p as *mut u64).add(3), size as u64) };
     }
 }
 
 fn write_progress(f: &mut std::fs::File, idx: u64, done: u64, nontrivial: u64) {
+    let p = PROGRESS_PTR.load(std::sync::atomic::Ordering::Relaxed);
+    if p != 0 {
+        unsafe {
+            let q = p as *mut u64;
+            std::ptr::write_volatile(q.add(1), done);
+            std::ptr::write_volatile(q.add(2), nontrivial);
+            std::ptr::write_volatile(q.add(3), 0);
+            std::sync::atomic::fence(std::sync::atomic::Ordering::SeqCst);
+            std::ptr::write_volatile(q, idx);
+        }
+        return;
+    }
     let mut b = [0u8; 32];
     b[..8].copy_from_slice(&idx.to_le_bytes());
     b[8..16].copy_from_slice(&done.to_le_bytes());
@@ -105,20 +130,19 @@ fn child_main(cli: &Cli, check: &'static dyn IsoCheck, k: usize, kk: usize, resu
     let final_path = format!("{dir}/final.{k}.{resume}.json");
     let mut pf = std::fs::OpenOptions::new().create(true).write(true).truncate(false).open(&progress_path).expect("progress file");
     let mut vf = std::fs::OpenOptions::new().create(true).append(true).open(&viol_path).expect("violations file");
-    {
-        use std::os::fd::AsRawFd;
-        PROGRESS_FD.store(pf.as_raw_fd(), std::sync::atomic::Ordering::Relaxed);
-        mc_core::alloc::CAP_HOOK.store(cap_hook as usize, std::sync::atomic::Ordering::Relaxed);
-    }
+    map_progress(&pf);
+    mc_core::alloc::CAP_HOOK.store(cap_hook as usize, std::sync::atomic::Ordering::Relaxed);
     let rep = Report::new(&cli.check);
     rep.enable_stream();
+    write_progress(&mut pf, STARTING, 0, 0);
     let n = check.n_cases();
     let only = cli.only.clone();
     let handle = std::thread::Builder::new()
         .stack_size(CHILD_STACK)
         .spawn(move || {
-            // a single request above 1 GiB fails (-> abort -> attributed to the case in flight)
-            mc_core::alloc::set_request_cap(1 << 30);
+            // a single request above the cap fails (-> abort -> attributed to the case in flight);
+            // zeroed multi-GiB dictionaries below it are mapped lazily and cost nothing until touched
+            mc_core::alloc::set_request_cap(REQUEST_CAP);
             let mut done = 0u64;
             let mut nontrivial = 0u64;
             let mut i = resume;
@@ -162,6 +186,9 @@ struct Slot {
 }
 
 fn spawn(cli: &Cli, k: usize, kk: usize, resume: usize, dir: &str) -> Child {
+    if let Ok(mut f) = std::fs::OpenOptions::new().create(true).write(true).truncate(false).open(format!("{dir}/progress.{k}")) {
+        write_progress(&mut f, STARTING, 0, 0);
+    }
     let exe = std::env::current_exe().expect("current exe");
     let mut c = Command::new(exe);
     c.arg(&cli.check).arg("--tier").arg(&cli.tier).arg("--seed").arg(cli.seed.to_string());
@@ -229,7 +256,7 @@ fn parent_main(cli: &Cli, rep: &Report, check: &'static dyn IsoCheck) {
                         };
                         if cap_size != 0 && st.signal() == Some(6) {
                             // the case asked for a single allocation above the harness's 1 GiB cap
-                            restart_after = Some((idx as usize, "huge-allocation".into(), format!("a single allocation of {cap_size} bytes was requested (harness cap 1 GiB): {why}")));
+                            restart_after = Some((idx as usize, "huge-allocation".into(), format!("a single allocation of {cap_size} bytes was requested (harness cap 5 GiB): {why}")));
                         } else {
                             restart_after = Some((idx as usize, "process-death".into(), format!("{kind}: {why}")));
                         }
@@ -237,7 +264,8 @@ fn parent_main(cli: &Cli, rep: &Report, check: &'static dyn IsoCheck) {
                     }
                 }
                 None => {
-                    if idx != u64::MAX && s.last_change.elapsed() > WATCHDOG {
+                    let limit = if idx == STARTING { STARTUP_GRACE } else { WATCHDOG };
+                    if idx != u64::MAX && s.last_change.elapsed() > limit {
                         let _ = s.child.kill();
                         let _ = s.child.wait();
                         restart_after = Some((idx as usize, "hang".into(), format!("no progress for {} s in one case", WATCHDOG.as_secs())));
